@@ -77,7 +77,7 @@ fi
 
 case "$target" in
   c01_walk|c02_font) maxlen=65536; dict="-dict=$fuzzdir/dict/sfnt.dict" ;;
-  c01_payload)       maxlen=16388; dict="" ;;
+  c01_payload)       maxlen=8196; dict="" ;;
   c13_colr)          maxlen=16384; dict="" ;;
   c14_sbs)           maxlen=512;   dict="" ;;
   *)                 maxlen=65536; dict="" ;;
@@ -305,7 +305,7 @@ for a in timeouts[:6]:
         hangs += 1
         add_violation("hang:fuzz:%s:%016x" % (target, fnv64(b)), {"what": "input exceeds libFuzzer -timeout=10 and uses > 10 s of cpu time on 3 of 3 runs alone", "cpu_s": cpus, "artifact": a}, path, b)
     elif len(inconclusive) < 20:
-        inconclusive.append("fuzz %s: timeout artifact %s not confirmed alone (cpu seconds %s; machine load), kept at %s" % (target, a, cpus, keep(path, b)))
+        inconclusive.append("fuzz %s: libFuzzer -timeout=10 fired on %s during the loaded parallel run, not confirmed alone (cpu seconds %s)" % (target, path, cpus))
 if len(timeouts) > 6:
     inconclusive.append("fuzz %s: %d timeout artifacts, only the first 6 were re-run" % (target, len(timeouts)))
 for a in ooms[:5]:
